@@ -663,6 +663,8 @@ def run_differential(prop, tier, seed, replay=None):
 
     rep.coverage["phase_s"]["build+generate"] = round(time.time() - rep.t0, 1)
     verdicts = judge(cases, "main")
+    prop._last_cases = cases
+    prop._last_impl = {c.id: verdicts[c.id][0] for c in cases}
     rep.coverage["phase_s"]["main_run"] = round(time.time() - rep.t0, 1)
     failing, disagreeing = [], []
     for c in cases:
